@@ -1133,3 +1133,268 @@ Proof.
   destruct (run_fifo c ops (init c) (init_inv c)) as [H _].
   destruct (H I) as [rest E]. cbn in E. rewrite E. apply is_prefix_app.
 Qed.
+
+(* ======================================================================================== *)
+(* C07_restart / C07_restart_fail: adjacency discipline                                       *)
+(* ======================================================================================== *)
+
+Fixpoint adj_from (p : option obs) (l : list obs) : bool :=
+  match l with
+  | [] => match p with None => true | Some a => may_end a end
+  | b :: t => (match p with None => may_start b | Some a => adj_pair a b end) && adj_from (Some b) t
+  end.
+
+Lemma adj_ok_from : forall t a, adj_ok (a :: t) = adj_from (Some a) t.
+Proof.
+  induction t as [|b t IH]; intros a; [reflexivity|].
+  cbn [adj_from]. rewrite <- IH. reflexivity.
+Qed.
+
+Lemma seg_adj_from : forall l, seg_adj_ok l = adj_from None l.
+Proof. destruct l as [|a t]; [reflexivity|]. cbn [seg_adj_ok adj_from]. now rewrite adj_ok_from. Qed.
+
+Definition okprev (p : option obs) : Prop :=
+  match p with None => True | Some a => may_end a = true end.
+
+Definition calm (e : obs) : Prop := may_start e = true /\ may_end e = true.
+
+Lemma adj_pair_ok : forall a b, may_end a = true -> may_start b = true -> adj_pair a b = true.
+Proof.
+  intros a b Ha Hb. unfold adj_pair.
+  destruct a as [k r|k cid|f|f r|sid bb|sid| |cid| |pk]; try destruct r; try discriminate;
+    destruct b as [k' r'|k' cid'|f'|f' r'|sid' bb'|sid'| |cid'| |pk']; try destruct pk'; try discriminate; reflexivity.
+Qed.
+
+Lemma adj_calm : forall p e l, okprev p -> calm e -> adj_from p (e :: l) = adj_from (Some e) l.
+Proof.
+  intros p e l Hp [Hs He]. cbn [adj_from]. destruct p as [a|].
+  - rewrite adj_pair_ok; auto.
+  - now rewrite Hs.
+Qed.
+
+Lemma adj_R : forall R l p,
+  Forall is_pollready R -> Forall not_err R -> okprev p ->
+  exists p', okprev p' /\ adj_from p (R ++ l) = adj_from p' l.
+Proof.
+  induction R as [|e t IH]; intros l p H1 H2 Hp.
+  - exists p. auto.
+  - inv H1. inv H2. destruct e as [k r| | | | | | | | | ]; try contradiction.
+    assert (C : calm (PollReady k r)). { destruct r; try contradiction; split; reflexivity. }
+    cbn [app]. rewrite adj_calm by auto.
+    apply IH; auto. apply C.
+Qed.
+
+Definition compat (p : option obs) (s : st) : Prop :=
+  match p with
+  | None => True
+  | Some (Create k) => ws s = WRestarting k /\ sq s = []
+  | Some a => may_end a = true
+  end.
+
+Lemma okprev_compat : forall p s, okprev p -> compat p s.
+Proof. intros [a|] s H; [|exact I]. destruct a; try exact H. discriminate H. Qed.
+
+Lemma compat_cases : forall p s, compat p s ->
+  okprev p \/ exists k, p = Some (Create k) /\ ws s = WRestarting k /\ sq s = [].
+Proof.
+  intros [a|] s H; [|left; exact I]. destruct a; try (left; exact H). right. eauto.
+Qed.
+
+(* observations the harness can only collect after the op *)
+Lemma drop_obs_main : forall s, filter is_main (drop_obs s) = [].
+Proof.
+  intros s. unfold drop_obs. rewrite !filter_app.
+  assert (A : forall (l : list (nat * nat)), filter is_main (map (fun x => Released (snd x)) l) = []).
+  { induction l; cbn; auto. }
+  assert (B : forall (l : list (bool * nat)), filter is_main (map (fun x => StopLost (snd x)) l) = []).
+  { induction l; cbn; auto. }
+  rewrite A, B. destruct (ws s); reflexivity.
+Qed.
+
+Lemma wake_obs_main : forall c n, filter is_main (wake_obs c n) = [].
+Proof. intros. unfold wake_obs. destruct (dec_wakes c n); reflexivity. Qed.
+
+Lemma drain_main : forall c q cnt cnt' o, drain c q cnt = (cnt', o) -> filter is_main o = [].
+Proof.
+  induction q as [|[tok cid] t IH]; intros cnt cnt' o H; cbn [drain] in H.
+  - inv H. reflexivity.
+  - destruct (drain c t (cnt - 1)%Z) as [c2 o2] eqn:Ed. inv H. cbn [filter is_main].
+    rewrite filter_app, wake_obs_main. eauto.
+Qed.
+
+Lemma shutdown_step_main : forall c s dl start sid s1 o,
+  shutdown_step c s dl start sid = (s1, o) ->
+  filter is_main o = [] \/ filter is_main o = [Done] \/ filter is_main o = [Panic POverflow].
+Proof.
+  intros c s dl start sid s1 o H. unfold shutdown_step in H.
+  destruct (drain c (cq s) (counter s)) as [cnt o1] eqn:Ed. apply drain_main in Ed. sel.
+  destruct (now s <? dl)%Z; [inv H; auto|].
+  destruct (total c _) as [|n].
+  { inv H. rewrite filter_app, Ed. auto. }
+  destruct (n =? 0)%Z.
+  { inv H. rewrite !filter_app, Ed. cbn [filter is_main app]. rewrite drop_obs_main. auto. }
+  destruct (c_timeout c <=? now s - start)%Z; inv H; auto.
+  rewrite !filter_app, Ed. cbn [filter is_main app]. rewrite drop_obs_main. auto.
+Qed.
+
+Lemma stoph_main : forall c s s0 o0 b, StopH c s s0 o0 b ->
+  (b = false /\ filter is_main o0 = []) \/
+  (b = true /\ (filter is_main o0 = [Done] \/ filter is_main o0 = [Panic POverflow])).
+Proof.
+  intros c s s0 o0 b H. inv H.
+  - left. auto.
+  - right. auto.
+  - right. split; auto. left. cbn [filter is_main]. now rewrite drop_obs_main.
+  - left. split; auto. destruct (ws s); reflexivity.
+  - right. split; auto. left. cbn [filter is_main]. now rewrite drop_obs_main.
+Qed.
+
+Lemma adj_single : forall p e, okprev p -> calm e -> adj_from p [e] = true.
+Proof. intros p e Hp C. rewrite adj_calm; auto. cbn. apply C. Qed.
+
+Lemma adj_nil : forall p, okprev p -> adj_from p [] = true.
+Proof. intros [a|] H; auto. Qed.
+
+Lemma calm_done : calm Done. Proof. split; reflexivity. Qed.
+Lemma calm_ovf : calm (Panic POverflow). Proof. split; reflexivity. Qed.
+Lemma calm_idx : calm (Panic PIndex). Proof. split; reflexivity. Qed.
+Lemma calm_call : forall k cid, calm (Call k cid). Proof. split; reflexivity. Qed.
+
+(* a returning state step, seen from a calm predecessor *)
+Lemma sstep_ret_adj : forall c s s1 o p,
+  Inv c s -> SStep c s s1 o NRet -> okprev p -> adj_from p (filter is_main o) = true.
+Proof.
+  intros c s s1 o p I0 H Hp.
+  inv H;
+    try (match goal with H : check_ready _ _ = (_, CROk _, _) |- _ =>
+           pose proof (check_ready_pollready _ _ _ _ _ H) as PR;
+           pose proof (check_ready_noerr _ _ _ _ _ H) as NE end).
+  - (* U pend *) rewrite main_pollready by auto. rewrite <- (app_nil_r o).
+    destruct (adj_R o [] p PR NE Hp) as (p' & Hp' & ->). now apply adj_nil.
+  - (* R idx *) apply adj_single; auto. apply calm_idx.
+  - (* R pend *) apply adj_single; auto. split; reflexivity.
+  - (* R err *) cbn [filter is_main adj_from]. destruct p as [a|].
+    + rewrite adj_pair_ok; auto.
+    + reflexivity.
+  - (* Shutdown *) apply shutdown_step_main in H1. destruct H1 as [->|[->| ->]].
+    + now apply adj_nil.
+    + apply adj_single; auto. apply calm_done.
+    + apply adj_single; auto. apply calm_ovf.
+  - (* A idle *) rewrite main_pollready by auto. rewrite <- (app_nil_r o).
+    destruct (adj_R o [] p PR NE Hp) as (p' & Hp' & ->). now apply adj_nil.
+  - (* A closed *) rewrite filter_app, main_pollready by auto. cbn [filter is_main].
+    rewrite drop_obs_main.
+    destruct (adj_R o0 [Done] p PR NE Hp) as (p' & Hp' & ->). apply adj_single; auto. apply calm_done.
+  - (* A idx *) rewrite filter_app, main_pollready by auto. cbn [filter is_main].
+    destruct (adj_R o0 [Panic PIndex] p PR NE Hp) as (p' & Hp' & ->). apply adj_single; auto. apply calm_idx.
+  - (* finished *) now apply adj_nil.
+Qed.
+
+Lemma adj_create_pollcreate : forall k a, adj_pair (Create k) (PollCreate k a) = true.
+Proof. intros. unfold adj_pair. rewrite Nat.eqb_refl. reflexivity. Qed.
+
+Lemma adj_err_create : forall k, adj_pair (PollReady k RErr) (Create k) = true.
+Proof. intros. unfold adj_pair. rewrite Nat.eqb_refl. reflexivity. Qed.
+
+(* what a state step does right after `restart_service` *)
+Lemma sstep_from_restarting : forall c s s1 o nx k,
+  Inv c s -> ws s = WRestarting k -> SStep c s s1 o nx ->
+  (nx = NRet /\ adj_from (Some (Create k)) (filter is_main o) = true)
+  \/ (nx = NTop /\ o = [PollCreate k COk]).
+Proof.
+  intros c s s1 o nx k [L S C] Ew H. rewrite Ew in S. cbn [stat_ok] in S. destruct S as [Sk _].
+  inv H; try congruence;
+    try (match goal with X : ws s = WRestarting _ |- _ => rewrite Ew in X; inv X end).
+  - exfalso. match goal with X : nth_error _ _ = None |- _ => apply nth_error_None in X end. lia.
+  - left. split; auto. cbn [filter is_main adj_from]. now rewrite adj_create_pollcreate.
+  - left. split; auto. cbn [filter is_main adj_from]. now rewrite adj_create_pollcreate.
+  - right. auto.
+  - match goal with X : finished _ = true |- _ => unfold finished in X; rewrite Ew in X; discriminate X end.
+Qed.
+
+Lemma check_prev_ok : forall p b, okprev p -> may_start b = true ->
+  (match p with None => may_start b | Some a => adj_pair a b end) = true.
+Proof. intros [a|] b Hp Hb; auto. now apply adj_pair_ok. Qed.
+
+Lemma poll_adj : forall c s, Inv c s -> finished s = false ->
+  forall p, compat p s -> adj_from p (filter is_main (snd (poll c s))) = true.
+Proof.
+  intros c s I0 F.
+  assert (K : (true = false -> sq s = []) ->
+              forall p, compat p s -> adj_from p (filter is_main (snd (poll c s))) = true).
+  2:{ apply K. discriminate. }
+  apply (poll_ind c (fun top s _ o => (top = false -> sq s = []) ->
+           forall p, compat p s -> adj_from p (filter is_main o) = true)); auto.
+  - (* a returning pass *)
+    intros top s0 s1 o I1 F1 Hp Hsq p Cp. apply pstep_cases in Hp.
+    destruct (compat_cases _ _ Cp) as [Op|(k & -> & Ew & Esq)].
+    + destruct Hp as [[-> H]|[-> (sa & oa & b & HS & H)]].
+      * eapply sstep_ret_adj; eauto.
+      * pose proof (stoph_inv _ _ _ _ _ I1 F1 HS) as Ia.
+        destruct (stoph_main _ _ _ _ _ HS) as [[-> Em]|[-> Em]].
+        -- destruct H as [(X & _)|(_ & o1 & H1 & ->)]; [discriminate|].
+           rewrite filter_app, Em. cbn [app]. eapply sstep_ret_adj; eauto.
+        -- destruct H as [(_ & _ & -> & _)|(X & _)]; [|discriminate].
+           destruct Em as [-> | ->]; apply adj_single; auto using calm_done, calm_ovf.
+    + assert (HS : SStep c s0 s1 o NRet).
+      { destruct Hp as [[-> H]|[-> (sa & oa & b & HS & H)]]; auto.
+        inv HS; try congruence.
+        destruct H as [(X & _)|(_ & o1 & H1 & ->)]; [discriminate|]. exact H1. }
+      destruct (sstep_from_restarting _ _ _ _ _ _ I1 Ew HS) as [[_ A]|[X _]]; [exact A|discriminate].
+  - (* a continuing pass *)
+    intros top s0 s1 o1 nx s2 o2 I1 L1 Hsq1 HS Hn I2 L2 Hsq2 IH Hsq p Cp.
+    assert (Esq : sq s0 = []). { destruct top; auto. }
+    assert (Esq1 : sq s1 = []) by congruence.
+    specialize (IH (fun _ => Esq1)).
+    rewrite filter_app.
+    destruct (compat_cases _ _ Cp) as [Op|(k & -> & Ew & _)].
+    + inv HS; try congruence;
+        try (match goal with H : check_ready _ _ = (_, CROk _, _) |- _ =>
+               pose proof (check_ready_pollready _ _ _ _ _ H) as PR;
+               pose proof (check_ready_noerr _ _ _ _ _ H) as NE end);
+        try (match goal with H : check_ready _ _ = (_, CRErr _, _) |- _ =>
+               destruct (check_ready_err _ _ _ _ _ H) as (o' & -> & NE & PR) end).
+      * (* U ready *) rewrite main_pollready by auto.
+        destruct (adj_R o1 (filter is_main o2) p PR NE Op) as (p' & Hp' & ->).
+        apply IH. now apply okprev_compat.
+      * (* U err *) rewrite <- app_assoc, filter_app, main_pollready by auto.
+        cbn [app filter is_main]. rewrite <- app_assoc. cbn [app].
+        destruct (adj_R o' (PollReady k RErr :: Create k :: filter is_main o2) p PR NE Op) as (p' & Hp' & ->).
+        cbn [adj_from]. rewrite check_prev_ok, adj_err_create by auto. cbn [andb].
+        apply IH. cbn [compat]. sel. auto.
+      * (* R ok *) cbn [filter is_main app]. rewrite adj_calm; auto; [|split; reflexivity].
+        apply IH. reflexivity.
+      * (* A call *) rewrite filter_app, main_pollready by auto. cbn [filter is_main].
+        rewrite <- app_assoc. cbn [app].
+        destruct (adj_R o (Call tok cid :: filter is_main o2) p PR NE Op) as (p' & Hp' & ->).
+        rewrite adj_calm; auto using calm_call. apply IH. reflexivity.
+      * (* A pend *) rewrite main_pollready by auto.
+        destruct (adj_R o1 (filter is_main o2) p PR NE Op) as (p' & Hp' & ->).
+        apply IH. now apply okprev_compat.
+      * (* A err *) rewrite <- app_assoc, filter_app, main_pollready by auto.
+        cbn [app filter is_main]. rewrite <- app_assoc. cbn [app].
+        destruct (adj_R o' (PollReady k RErr :: Create k :: filter is_main o2) p PR NE Op) as (p' & Hp' & ->).
+        cbn [adj_from]. rewrite check_prev_ok, adj_err_create by auto. cbn [andb].
+        apply IH. cbn [compat]. sel. auto.
+    + destruct (sstep_from_restarting _ _ _ _ _ _ I1 Ew HS) as [[X _]|[_ ->]]; [congruence|].
+      cbn [filter is_main app adj_from]. rewrite adj_create_pollcreate. cbn [andb].
+      apply IH. reflexivity.
+Qed.
+
+Theorem restart_holds : forall c ops, C07_restart_ok (trace c ops) = true.
+Proof.
+  intros c ops. unfold C07_restart_ok, trace. apply forallb_forall.
+  apply Forall_forall. apply run_Forall; [|apply init_inv].
+  intros s o I0 F. rewrite seg_adj_from. destruct (op_eq_poll_dec o) as [->|Hn].
+  - cbn [step]. apply poll_adj; auto. exact I.
+  - (* other ops emit no main event at all *)
+    assert (E : filter is_main (snd (step c s o)) = []).
+    { destruct o; try congruence; cbn [step].
+      - destruct (cq_open s); [destruct (gap s)|]; reflexivity.
+      - destruct (gap s); reflexivity.
+      - reflexivity.
+      - destruct (mem_nat cid (inprog s)); cbn [snd filter is_main]; auto. apply wake_obs_main.
+      - reflexivity.
+      - destruct (gap s); reflexivity. }
+    rewrite E. reflexivity.
+Qed.
